@@ -1268,7 +1268,7 @@ func c04R3(c *eng.Ctx, p *c04Preds) {
 // the decoded Path and, when the original encoding is not the canonical one, RawPath; a
 // URL rebuilt from Path alone re-encodes "%2F" as "/" (F04).
 func c04R4(c *eng.Ctx, p *c04Preds) {
-	sa := c.Slicer().WithArgs()
+	sa := c.Slicer().WithArgs().WithUp() // the URL may be rebuilt in a helper that is handed req.URL
 	fromReqURL := func(v ssa.Value) bool {
 		return sa.DerivesFrom(v, func(x ssa.Value) bool { return eng.FieldLoadOf(x, c04TRequest, "URL") })
 	}
